@@ -2,6 +2,8 @@ import BddVerif.Props.C06
 import BddVerif.Lemmas.AlgoEqRestrictThm
 import BddVerif.Lemmas.AlgoEq2RelPanic
 import BddVerif.Lemmas.AlgoEq2RelPickRec
+import BddVerif.Lemmas.SupportCongr
+import BddVerif.Lemmas.SupportCongrDrive
 #print axioms B.Props.C06.from_values_last_wins
 #print axioms B.Props.C06.select_canon
 #print axioms B.Props.C06.select_spec
@@ -43,3 +45,10 @@ import BddVerif.Lemmas.AlgoEq2RelPickRec
 #print axioms B.AlgoEq2Rel.Bdd_pick_random_spec
 #print axioms B.AlgoEq2Rel.Bdd_pick_panics
 #print axioms B.AlgoEq2Rel.sorted_eq_model
+#print axioms B.SupportCongr.evalArr_congr_supportSet
+#print axioms B.SupportCongr.compress_evalArr_eq
+#print axioms B.SupportCongr.compress_evalArr_conn
+#print axioms B.SupportCongr.compress_evalArr_proj
+#print axioms B.SupportCongr.sameOn_iff
+#print axioms B.SupportCongr.c06_ttC_sound
+#print axioms B.SupportCongr.c06_ttC_complete
